@@ -107,6 +107,11 @@ def abstract(calls, digests):
     return out
 
 
+def ann_of(op):
+    """The annotation signature of the descriptor a tag operation hands over (crashdrv tagDesc / annSig)."""
+    return "verif.variant=v%d;" % op["av"] if op.get("av") else ""
+
+
 def one_scenario(ctx, drv, sc, base, max_points):
     """Returns the trace records of one scenario (or raises Infra)."""
     sid = sc["id"]
@@ -122,7 +127,7 @@ def one_scenario(ctx, drv, sc, base, max_points):
     digests = init.pop("digests")
     recs = [init]
     for op in sc["setup"] or []:
-        recs.append({"e": "op", "op": op["op"], "n": op.get("n", 0), "ref": op.get("ref", "")})
+        recs.append({"e": "op", "op": op["op"], "n": op.get("n", 0), "ref": op.get("ref", ""), "ann": ann_of(op)})
     # recording run
     rdir = os.path.join(d, "rec")
     shutil.copytree(tmpl, rdir, symlinks=True)
@@ -133,7 +138,7 @@ def one_scenario(ctx, drv, sc, base, max_points):
         raise Infra("scenario %d: recording run failed (rc=%s marked=%s done=%s): %s" % (sid, p.returncode, marked, done,
                                                                                        p.stderr[-300:]))
     v = sc["victim"]
-    recs.append({"e": "victim", "op": "tag" if v["op"] == "tagsave" else v["op"], "n": v.get("n", 0), "ref": v.get("ref", ""),
+    recs.append({"e": "victim", "op": "tag" if v["op"] == "tagsave" else v["op"], "n": v.get("n", 0), "ref": v.get("ref", ""), "ann": ann_of(v),
                  "res": "ok" if p.returncode == 0 else "err", "steps": abstract(calls, digests), "ncalls": len(calls),
                  "calls": [c["name"] for c in calls]})
     found = json.loads(run_cmd([drv, "inspect", rdir, scf]).stdout)
